@@ -73,7 +73,7 @@ CLAIMED.update({
          "Trie code never reads a key's raw representation; the stored prefix of an existing node is written exactly by the inserting/replacing calls (always, with the caller's prefix) and by nothing else; a node created for a new key (fresh or recycled slot) holds the caller's representation; observers, Entry::key and every set-operation item report the stored prefix of a node that holds the reported value.",
          TB + "; assumes C17 (mask/eq/contains ignore host bits); 'most recent call' is the per-step fact", "DESIGN.md §6 C18"),
  "C19": (AI + " with sequence-combinator models (Iterator::eq / zip / all), clone and serde models",
-         "eq of maps and sets is Iterator::eq over both whole walkers (or count ∧ zipped element-wise own equality); Clone derived / clone_from copies table, free list and counter; Table::clone copies the node vector; from_iter inserts every item into a fresh collection; Serialize collects the whole collection; Deserialize goes through from_iter.",
+         "eq of maps and sets is Iterator::eq over both whole walkers (or count ∧ zipped element-wise own equality, or a lock-step loop over both whole walkers decided at the first differing round); Clone derived / clone_from copies table, free list and counter; Table::clone copies the node vector; from_iter inserts every item into a fresh collection; Serialize collects the whole collection; Deserialize goes through from_iter.",
          TB + "; std's Iterator::eq and derive(Clone) trusted; value-level round trips through a foreign format not decided", "DESIGN.md §6 C19"),
  "C20": (AI + " over all public entry points (panic reachability), MIR panic-site inventory with coverage, loop-progress and callback-time consistency replay",
          "No analysed path of any entry point (incl. two-call sequences on borrowed entry handles) ends in a panic; every panic-capable site lies in an analysed function or a tabulated class; every loop iteration pops or descends; at every user-callback invocation counter and slots are consistent; the arena shrinks only with the free list. D3 (view set() not counted → later `count -= 1` underflow) is an open known finding.",
